@@ -128,6 +128,22 @@ CellTable ==
 AllCells == DOMAIN CellTable
 AllInits == DOMAIN InitTable
 
+(* one cell per instruction variant (two for Const/Wrap/Unwrap), chosen so that execution tends
+   to continue: the alphabet of the exhaustive 4-instruction configuration                  *)
+CoreDescr == {
+  <<"Const", VInt(1)>>, <<"Const", VBool(TRUE)>>, <<"Const", SFull>>, <<"Identifier", "a">>,
+  <<"Def", "x">>, <<"Get", "x">>, <<"Dup">>, <<"Pop">>, <<"Block">>, <<"End">>,
+  <<"Jump", "next">>, <<"Branch", "next">>, <<"Call", "next">>, <<"Recall", "next">>,
+  <<"ExtCall", 0, 0>>, <<"Return">>, <<"Exit", "check">>,
+  <<"Add">>, <<"Sub">>, <<"SaturatingAdd">>, <<"SaturatingSub">>, <<"Not">>, <<"Gt">>, <<"Lt">>, <<"Eq">>,
+  <<"FactNew", "F">>, <<"FactKeySet", "k">>, <<"FactValueSet", "v">>,
+  <<"StructNew", "S">>, <<"StructSet", "a">>, <<"StructGet", "a">>, <<"MStructSet", 1>>, <<"MStructGet", 1>>,
+  <<"Cast", "T">>, <<"Wrap", "some">>, <<"Wrap", "ok">>, <<"Is", "some">>, <<"Unwrap", "some">>, <<"Unwrap", "ok">>,
+  <<"Publish">>, <<"Create">>, <<"Delete">>, <<"Update">>, <<"Emit">>, <<"Query">>, <<"FactCount", 1>>,
+  <<"QueryStart">>, <<"QueryNext", "x">>, <<"Serialize">>, <<"Deserialize">>, <<"SaveSP">>, <<"RestoreSP">>,
+  <<"Meta", "finish">>, <<"Next">>, <<"Last">> }
+CoreCells == {i \in AllCells : CellTable[i] \in CoreDescr}
+
 Contexts == {"action", "seal", "open", "policy", "recall"}
 IoClasses == {"ok", "empty", "error", "itemerr"}
 
